@@ -7,8 +7,26 @@ import (
 	"github.com/trustbloc/sidetree-go/pkg/jws"
 )
 
+// c04Member: an opaque member value, as it is or with characters a "helpful" normalisation might drop or fold (base64
+// padding, surrounding blanks, upper case): a key is hashed exactly as given.
+func c04Member(tag string) string {
+	a := verifrt.AnyAtom(tag)
+	if tag != "k-x" {
+		return a // the forms are varied on one key only
+	}
+	switch verifrt.Choose(tag+"-form", 4) {
+	case 1:
+		return a + "="
+	case 2:
+		return " " + a + " "
+	case 3:
+		return "AB" + a
+	}
+	return a
+}
+
 func anyJWK(tag string) *jws.JWK {
-	k := &jws.JWK{Kty: verifrt.AnyAtom(tag + "-kty"), Crv: verifrt.AnyAtom(tag + "-crv"), X: verifrt.AnyAtom(tag + "-x")}
+	k := &jws.JWK{Kty: verifrt.AnyAtom(tag + "-kty"), Crv: verifrt.AnyAtom(tag + "-crv"), X: c04Member(tag + "-x")}
 	if verifrt.Choose(tag+"-has-y", 2) == 1 {
 		k.Y = verifrt.AnyAtom(tag + "-y")
 	}
